@@ -165,3 +165,32 @@ Proof.
     by (vm_compute; reflexivity).
   rewrite forallb_forall in H. intros r I E. specialize (H r I). rewrite E in H. exact H.
 Qed.
+
+(* ---------- sequences of transactions on one state object (one block) ---------- *)
+Fixpoint exec_txs (progs : list prog) (fuel : nat) (ts : list tx) (s : state) : state :=
+  match ts with
+  | [] => s
+  | t :: r => let '(_, _, s') := exec_tx progs fuel t s in exec_txs progs fuel r s'
+  end.
+
+Lemma exec_tx_wf progs fuel t s o l s' : wf s -> exec_tx progs fuel t s = (o, l, s') -> wf s'.
+Proof.
+  intros W H. unfold exec_tx in H.
+  destruct (exec_top_ok _ _ _ _ _ _ _ (wf_prepare (t_hash t) (t_index t) s (t_oracle t) W) H) as ([_ _ W'] & _). exact W'.
+Qed.
+
+(* the logs a receipt takes (GetLogs of its hash right after its transaction) are not changed by any later
+   transaction of the block with a different hash *)
+Lemma later_txs_keep_logs progs fuel : forall ts s h,
+  wf s -> (forall t, In t ts -> t_hash t <> h) -> logs (dat (exec_txs progs fuel ts s)) h = logs (dat s) h.
+Proof.
+  induction ts as [|t r IH]; intros s h W D; cbn [exec_txs]; auto.
+  destruct (exec_tx progs fuel t s) as [[o l] s'] eqn:E.
+  rewrite IH.
+  - eapply tx_logs_own; eauto. intros X. apply (D t); [left; auto | auto].
+  - eapply exec_tx_wf; eauto.
+  - intros t' I. apply D. right; auto.
+Qed.
+
+Lemma wf_fresh d th ti orc : wf (mkState d [] [] 0 th ti orc).
+Proof. constructor. Qed.
